@@ -126,7 +126,7 @@ def smoke_unit(unit, workdir, n=200000, seed=0):
     call = unit.cxx
     for i in range(len(names), 0, -1):
         call = call.replace('$%d' % i, names[i - 1])
-    pre = '%s(%s)' % (unit.pre, ', '.join(names)) if unit.pre else 'true'
+    pre = '%s(%s)' % (unit.pre, ', '.join(names + [str(c) for c in unit.pre_consts])) if unit.pre else 'true'
     if unit.ub_only:
         pre = 'true'
     cmp_ = 'real.v == ext.v' if ret[0] == 'fixed_t' else 'same(real, ext)'
@@ -239,7 +239,7 @@ def smoke_unit_int(unit, workdir, n=40, seed=0):
     for i in range(len(names), 0, -1):
         call = call.replace('$%d' % i, names[i - 1])
     d = INT_DRIVER
-    for k, v in {'INPUTS': inp, 'NP': str(len(names)), 'DECL': '\n'.join(decl), 'PRE': '%s(%s)' % (unit.pre, ', '.join(names)) if unit.pre else 'true',
+    for k, v in {'INPUTS': inp, 'NP': str(len(names)), 'DECL': '\n'.join(decl), 'PRE': '%s(%s)' % (unit.pre, ', '.join(names + [str(c) for c in unit.pre_consts])) if unit.pre else 'true',
                  'CALL': call, 'RES': 'r.v' if f['ret'].base == 'fixed_t' else 'r'}.items():
         d = d.replace('@@%s@@' % k, v)
     dpath = os.path.join(udir, 'driver.cc')
@@ -257,7 +257,8 @@ def smoke_unit_int(unit, workdir, n=40, seed=0):
     outs = r.stdout.strip().split('\n')
     if len(outs) != len(rows):
         return 'error', 'driver output rows %d != %d' % (len(outs), len(rows))
-    base = intwp.PRELUDE + '\n'.join(wp.decls) + '\n' + '\n'.join('(assert %s)' % a for a in wp.asserts) + '\n'
+    # definitions plus what the executor assumed on the way (input ranges, the defining inequalities of clz results)
+    base = intwp.PRELUDE + '\n'.join(wp.decls) + '\n' + '\n'.join('(assert %s)' % a for a in wp.asserts) + '\n' + '\n'.join('(assert %s)' % a for a in wp.assumes) + '\n'
     q = [base]
     expect = []
     for row, o in zip(rows, outs):
